@@ -183,6 +183,9 @@ def judge (d : RuleDesc) (preds : List (Nat × String)) (tbl : List (Nat × Byte
 def step (_ : Unit) (line : String) : Unit × String :=
   let r : String :=
     match words line with
+    | ["W", h] => match parseHex h with
+      | some x => boolStr (Spec.utf8WellFormed x)
+      | none => "bad-op"
     | ["U", k, _, v, tb] =>
       match uriKind k, parseHex v, parseTable tb with
       | some kind, some v, some tbl =>
